@@ -23,7 +23,7 @@ PLAN = {
     "quick": {"cases": 1400, "soft_s": 90, "min_nontrivial": 400, "require": REQ},
     "thorough": {"cases": 56000, "soft_s": 1500, "min_nontrivial": 12000, "require": REQ},
 }
-ASSUMPTIONS = ["cases where an SE(3) error quaternion has |w| < 1e-3 or an SE(2) angular error is within 1e-6 of +-pi are excluded (the error is discontinuous there); cond(H) <= 1e8"]
+ASSUMPTIONS = ["cases where an SE(3) error quaternion has |w| < 1e-3 or an SE(2) angular error is within 1e-6 of +-pi are excluded (the error is discontinuous there); cond(H) <= 1e8; cases where the measured amplification of the K-iteration map (re-run from a 1e-11 perturbed start) exceeds 1e5 are inconclusive"]
 
 
 def apply_relation(rng, spec, rel, ctx):
@@ -159,10 +159,15 @@ def run_case(ctx, i, rng):
     except Exception as ex:
         ctx.check("result-representation-invariant", False, dict(feats, exception=type(ex).__name__), {"message": str(ex)[:300]}, case)
         return
+    # measured on both executions; the smaller one counts (see C07)
+    amp = min(M.iteration_amplification(spec, g, dict(kw, fix_first_pose=ffp)), M.iteration_amplification(spec2, g2, dict(kw, fix_first_pose=ffp)))
+    if not (amp < 1e5):
+        raise Skip("the K-iteration map amplifies a 1e-11 perturbation by more than 1e5 here (expanding / chaotic regime)")
+    ctx.margin("observed-iteration-amplification/1e5", amp / 1e5)
     K = mode if mode else max(r1.num_iterations or 1, r2.num_iterations or 1)
     if not mode and (not r1.converged or not r2.converged):
         raise Skip("run to convergence did not converge within 50 iterations")
-    tol = 200 * R.EPS * cond * (1.0 + scene) * 4.0 ** min(K, 6)
+    tol = 200 * R.EPS * cond * (1.0 + scene) * max(4.0 ** min(K, 6), 10.0 * amp)
     if not mode:
         # two converged runs may stop one iteration apart: they agree to the convergence accuracy, not to rounding
         tol = max(tol, 1e-4)
@@ -185,7 +190,7 @@ def run_case(ctx, i, rng):
     ctx.check("result-representation-invariant", worst <= tol, dict(feats, to_convergence=not mode), {"worst": worst, "tol": tol, "cond": cond, "K": K, "c": c}, case)
     if mode:
         # chi2 reports must agree as well (scaled)
-        ctx.close("final-chi2-representation-invariant", r2.final_chi2, c * r1.final_chi2, max(c, 1) * (1e-7 * abs(r1.final_chi2) + bound * 1e3 + 1e-20), feats, None, case)
+        ctx.close("final-chi2-representation-invariant", r2.final_chi2, c * r1.final_chi2, max(c, 1) * (1e-7 * max(1.0, amp / 64) * abs(r1.final_chi2) + bound * 1e3 + 1e-20), feats, None, case)
     if changed and moved > 1e-6:
         ctx.nontrivial(gen.fingerprint({"spec": spec, "rel": rel, "mode": mode}))
     ctx.sample({"relation": rel, "mode": "K=%d" % mode if mode else "to convergence", "info_cross_terms": cross, "n_vertices": len(spec["vertices"]), "n_edges": len(spec["edges"]),
